@@ -3,6 +3,8 @@ Property C18 — JSON conversion round-trips and tolerates any input.
 -/
 import ChaiVerif.Model.Json
 import ChaiVerif.Gen.Json
+import ChaiVerif.Lemmas.JsonLeaves
+import ChaiVerif.Lemmas.JsonRoundtrip
 namespace ChaiVerif.C18
 open ChaiVerif
 
@@ -17,70 +19,6 @@ theorem json_tables_and_census :
     Gen.jsonUncheckedReads = 0 ∧ Gen.jsonConsumeWsShape = true ∧ Gen.jsonWrapMapsOutOfRange = true ∧
     Gen.jsonDepthGuard = true ∧ Gen.jsonMaxDepth = maxDepth := by decide
 
-theorem getElem?_mid (pre post : List Nat) (x : Nat) : (pre ++ x :: post)[pre.length]? = some x := by simp
-theorem getElem?_mid1 (pre post : List Nat) (x y : Nat) : (pre ++ x :: y :: post)[pre.length + 1]? = some y := by
-  have := getElem?_mid (pre ++ [x]) post y
-  simpa using this
-
-/-- Escaping one character yields either the character itself (not a quote or backslash) or a
-    backslash followed by a character that `parse_string` maps back to it. -/
-theorem escChar_cases (c : Nat) :
-    (escChar c = [c] ∧ c ≠ 34 ∧ c ≠ 92) ∨ (∃ e, escChar c = [92, e] ∧ unescChar e = some c) := by
-  unfold escChar
-  by_cases h1 : c = 34; · subst h1; right; exact ⟨34, by decide, by decide⟩
-  by_cases h2 : c = 92; · subst h2; right; exact ⟨92, by decide, by decide⟩
-  by_cases h3 : c = 8; · subst h3; right; exact ⟨98, by decide, by decide⟩
-  by_cases h4 : c = 12; · subst h4; right; exact ⟨102, by decide, by decide⟩
-  by_cases h5 : c = 10; · subst h5; right; exact ⟨110, by decide, by decide⟩
-  by_cases h6 : c = 13; · subst h6; right; exact ⟨114, by decide, by decide⟩
-  by_cases h7 : c = 9; · subst h7; right; exact ⟨116, by decide, by decide⟩
-  left; simp [h1, h2, h3, h4, h5, h6, h7]
-
-/-- Generalised round trip: reading the escaped form of `t` that sits after `pre` appends `t`. -/
-theorem parseString_escape (t : List Nat) : ∀ (pre : List Nat) (x : Nat) (rest acc : List Nat) (f : Nat),
-    t.length < f →
-    parseString (pre ++ x :: (jsonEscape t ++ 34 :: rest)) f pre.length acc
-      = .ok (acc ++ t, pre.length + (jsonEscape t).length + 2) := by
-  induction t with
-  | nil =>
-    intro pre x rest acc f hf
-    obtain ⟨f, rfl⟩ : ∃ g, f = g + 1 := ⟨f - 1, by omega⟩
-    have h1 : (pre ++ x :: (jsonEscape [] ++ 34 :: rest))[pre.length + 1]? = some 34 := by
-      simp [jsonEscape, getElem?_mid1]
-    unfold parseString
-    simp [h1, jsonEscape]
-  | cons c cs ih =>
-    intro pre x rest acc f hf
-    obtain ⟨f, rfl⟩ : ∃ g, f = g + 1 := ⟨f - 1, by simp at hf; omega⟩
-    have hf' : cs.length < f := by simp at hf; omega
-    rcases escChar_cases c with ⟨he, h34, h92⟩ | ⟨e, he, hu⟩
-    · -- plain character
-      have hs : pre ++ x :: (jsonEscape (c :: cs) ++ 34 :: rest) = (pre ++ [x]) ++ c :: (jsonEscape cs ++ 34 :: rest) := by
-        simp [jsonEscape, he]
-      have h1 : (pre ++ x :: (jsonEscape (c :: cs) ++ 34 :: rest))[pre.length + 1]? = some c := by
-        simp [jsonEscape, he, getElem?_mid1]
-      unfold parseString
-      simp only [h1, h34, h92, if_false]
-      rw [hs]
-      have := ih (pre ++ [x]) c rest (acc ++ [c]) f hf'
-      simp only [List.length_append, List.length_cons, List.length_nil] at this
-      rw [this]
-      simp [jsonEscape, he]; omega
-    · -- backslash escape
-      have hs : pre ++ x :: (jsonEscape (c :: cs) ++ 34 :: rest) = (pre ++ [x, 92]) ++ e :: (jsonEscape cs ++ 34 :: rest) := by
-        simp [jsonEscape, he]
-      have h1 : (pre ++ x :: (jsonEscape (c :: cs) ++ 34 :: rest))[pre.length + 1]? = some 92 := by
-        simp [jsonEscape, he, getElem?_mid1]
-      have h2 : (pre ++ x :: (jsonEscape (c :: cs) ++ 34 :: rest))[pre.length + 2]? = some e := by
-        rw [hs]; have := getElem?_mid (pre ++ [x, 92]) (jsonEscape cs ++ 34 :: rest) e; simpa using this
-      unfold parseString
-      simp only [h1, h2, hu, show (92 : Nat) ≠ 34 by decide, if_false, if_true]
-      rw [hs]
-      have := ih (pre ++ [x, 92]) e rest (acc ++ [c]) f hf'
-      simp only [List.length_append, List.length_cons, List.length_nil] at this
-      rw [this]
-      simp [jsonEscape, he]; omega
-
 /-- **Strings round-trip**: for every byte string `s` (all byte values, quotes, backslashes and
     control characters included), parsing the quoted, escaped form of `s` yields exactly `s` and stops
     right after the closing quote — wherever the literal sits in the input. -/
@@ -90,56 +28,6 @@ theorem unescape_escape (s pre rest : List Nat) :
   have := parseString_escape s pre 34 rest [] (s.length + 1) (by omega)
   simpa using this
 
-theorem go_snoc (xs : List Nat) : ∀ (t : Int) (c : Nat), (∀ x ∈ xs, 48 ≤ x ∧ x ≤ 57) →
-    parseNumInt.go (xs ++ [c]) t = parseNumInt.go [c] (parseNumInt.go xs t) := by
-  induction xs with
-  | nil => intro t c _; rfl
-  | cons x xs ih =>
-    intro t c h
-    have hx := h x (by simp)
-    have hx1 : ¬ (x < 48) := by omega
-    have hx2 : ¬ (x > 57) := by omega
-    simp only [List.cons_append, parseNumInt.go, hx1, hx2, Bool.or_self, decide_false, Bool.false_eq_true, if_false]
-    exact ih _ c (fun y hy => h y (by simp [hy]))
-
-theorem decDigits_digits : ∀ (f n : Nat), ∀ x ∈ decDigits f n, 48 ≤ x ∧ x ≤ 57 := by
-  intro f
-  induction f with
-  | zero => intro n x hx; simp [decDigits] at hx
-  | succ f ih =>
-    intro n x hx
-    unfold decDigits at hx
-    split at hx
-    · simp at hx; omega
-    · simp at hx
-      rcases hx with hx | hx
-      · exact ih _ x hx
-      · omega
-
-/-- **Integers round-trip**: printing a non-negative 63-bit value in decimal and reading it back with
-    `parse_num<int64_t>` (wrap-around arithmetic included in the model) yields the value. -/
-theorem digits_roundtrip : ∀ (f n : Nat), n < f → n < 9223372036854775808 →
-    parseNumInt.go (decDigits f n) 0 = (n : Int) := by
-  intro f
-  induction f with
-  | zero => intro n h; omega
-  | succ f ih =>
-    intro n hf hn
-    unfold decDigits
-    split
-    · rename_i h10
-      have h1 : ¬ (48 + n < 48) := by omega
-      have h2 : ¬ (48 + n > 57) := by omega
-      simp [parseNumInt.go, h1, h2, wrap64]
-      omega
-    · rename_i h10
-      rw [go_snoc _ _ _ (decDigits_digits f (n / 10))]
-      rw [ih (n / 10) (by omega) (by omega)]
-      have h1 : ¬ (48 + n % 10 < 48) := by omega
-      have h2 : ¬ (48 + n % 10 > 57) := by omega
-      simp [parseNumInt.go, h1, h2, wrap64]
-      omega
-
 theorem int_text_roundtrip (n : Nat) (h : n < 9223372036854775808) : parseNumInt (natDigits n) = (n : Int) := by
   unfold parseNumInt natDigits
   exact digits_roundtrip (n + 1) n (by omega) h
@@ -148,5 +36,25 @@ theorem int_text_roundtrip (n : Nat) (h : n < 9223372036854775808) : parseNumInt
 theorem parse_depth_bounded (s : List Nat) (f off d : Nat) (h : d ≥ maxDepth) :
     parseJ s (f + 1) d (.next off) = .error .depth := by
   simp [parseJ]; omega
+
+/-! ### whole values -/
+
+/-- **from_json(to_json(v)) = v** for every value built from null, booleans, integers strictly inside the 64-bit range, strings of
+    arbitrary bytes and arrays of such values nested to any depth below the parser's limit: parsing the text `dumpJ` prints returns
+    exactly the value (the whole recursive-descent parser — white space, dispatch on the first character, the number scanner with
+    its terminator rule, the string scanner, the array loop with its `, ` separators, the depth guard and the fuel `jsonLoad`
+    gives it — against the printer).  `plainJ F j` says that `j` is such a value and nests less than `F` deep.
+    PARTIAL with respect to the property: string-keyed maps (objects) are not covered by this theorem (their round trip is decided by
+    the correspondence check), and floating-point values are outside any exact statement (the property itself allows 1e-6). -/
+theorem roundtrip_arrays_partial (F : Nat) (j : J) (d : Nat) (hpl : JRT.plainJ F j = true) (hF : F ≤ maxDepth) :
+    jsonLoad (dumpJ F j d) = .ok j := by
+  obtain ⟨off, hp, _⟩ := JRT.P_all F j d [] [] [] 0 (4 * (dumpJ F j d).length + 8) hpl (by omega)
+    (by intro c hc; simp at hc) (Or.inl rfl) (by omega)
+  simp only [List.nil_append, List.append_nil, List.length_nil] at hp
+  unfold jsonLoad
+  rw [hp]
+
+/-- non-vacuity: a nested value with every covered kind is `plainJ`, and (by evaluation) its text parses back -/
+example : JRT.plainJ 4 (.arr [.int (-7), .str [34, 92, 10], .arr [], .arr [.bool true, .null, .arr [.int 0]]]) = true := by decide
 
 end ChaiVerif.C18
